@@ -4,7 +4,13 @@ use std::io::Write;
 #[derive(Clone)]
 pub struct Rng(pub u64);
 impl Rng {
-    pub fn new(seed: u64) -> Self { Rng(seed.wrapping_mul(0x9E3779B97F4A7C15).wrapping_add(0x1234_5678_9abc_def1)) }
+    /// The seed is hashed (SplitMix64 finaliser) so that neighbouring seeds give unrelated streams.
+    pub fn new(seed: u64) -> Self {
+        let mut z = seed.wrapping_add(0x9E3779B97F4A7C15).wrapping_mul(0xD6E8FEB86659FD93);
+        z = (z ^ (z >> 30)).wrapping_mul(0xBF58476D1CE4E5B9);
+        z = (z ^ (z >> 27)).wrapping_mul(0x94D049BB133111EB);
+        Rng(z ^ (z >> 31))
+    }
     pub fn next(&mut self) -> u64 {
         self.0 = self.0.wrapping_add(0x9E3779B97F4A7C15);
         let mut z = self.0;
